@@ -18,6 +18,7 @@ import (
 	"sort"
 	"strings"
 	"sync"
+	"sync/atomic"
 	"syscall"
 	"time"
 
@@ -410,6 +411,7 @@ func cmdPrefix(args []string, w *bufio.Writer) {
 	var wg sync.WaitGroup
 	var mu sync.Mutex
 	sigSeen := map[string]bool{}
+	var readHangs int32
 	for i, n := range ns {
 		wg.Add(1)
 		sem <- struct{}{}
@@ -480,6 +482,11 @@ func cmdPrefix(args []string, w *bufio.Writer) {
 			if first {
 				pr.Rows = rows
 			}
+			if atomic.LoadInt32(&readHangs) >= 6 {
+				// enough evidence of hanging reads: do not spend the watchdog time on every further cut
+				out[i] = pr
+				return
+			}
 			r2 := &runner{h: h, in: in2, ks: ks, dir: sub, shaBlob: r.shaBlob, blobs: r.blobs}
 			fd := make(chan struct{})
 			go func() {
@@ -508,10 +515,37 @@ func cmdPrefix(args []string, w *bufio.Writer) {
 					r2.content(&e2, buf.Bytes(), oerr)
 					f["op_len"], f["op_sha"], f["op_err"] = e2.Len, e2.Sha, e2.Err
 				}
+				// the user-level route: a fresh instance over (a copy of) the same cut tape with an empty index is
+				// initialised (STFS.Initialize rebuilds the index) and the entries are read through THAT instance
+				drive3 := filepath.Join(sub, "d3.tar")
+				os.WriteFile(drive3, full[:n], 0o600)
+				in3, err3 := mk(h.Config, drive3, filepath.Join(sub, "m3.sqlite"), sub, ks, &seams{})
+				if err3 != nil {
+					return
+				}
+				if _, ierr3 := in3.s.Initialize(rootOf(h.Config), os.ModePerm); ierr3 != nil {
+					return // judged by C16: nothing to read through an instance that did not open
+				}
+				r3 := &runner{h: h, in: in3, ks: ks, dir: sub, shaBlob: r.shaBlob, blobs: r.blobs}
+				for _, f := range pr.Fetch {
+					name, _ := f["name"].(string)
+					if name == "" || f["rec"] == nil {
+						continue
+					}
+					p := name
+					if !strings.HasPrefix(p, "/") {
+						p = "/" + p
+					}
+					data, rerr := r3.readAll(in3.s, p)
+					e := Entry{Blob: -2}
+					r3.content(&e, data, rerr)
+					f["in_len"], f["in_sha"], f["in_err"] = e.Len, e.Sha, e.Err
+				}
 			}()
 			select {
 			case <-fd:
-			case <-time.After(2 * tmo):
+			case <-time.After(3 * tmo):
+				atomic.AddInt32(&readHangs, 1)
 				pr.Fetch = []map[string]interface{}{{"name": "*", "err": "HANG"}}
 			}
 			out[i] = pr
